@@ -505,7 +505,7 @@ def random_case(rng, tier):
 
 def exhaustive_cases(tier):
     """All occupancy patterns of a small regular histogram x every position of SD relative to the classes x
-    the k_2 variants."""
+    5 curves (three k_2 variants and two native-probability curves)."""
     mmax = 4 if tier == "quick" else 6
     for m in range(1, mmax + 1):
         members = [[40.0 * i, 40.0 * (i + 1)] for i in range(1, m + 1)]     # amplitudes 30, 50, 70, ...
@@ -597,9 +597,10 @@ class C11(Prop):
     ] + ["PylifeVerif.Bridge." + t for t in [      # generated (translated) definitions = hand model
         "effective_damage_sum_eq", "finite_life_factor_eq"]]
     _K1 = ("the clause 'original <= Haibach <= elementary' is stated and proved for k_1 >= 1; WoehlerCurve._validate also accepts "
-           "k_1 < 1 (no physical Woehler line), there the Haibach slope 2 k_1 - 1 is flatter than k_1 and the order of Haibach and "
-           "elementary is reversed (proved: damage_order_reversed_below_k1_one) - the clause is false for such curves, the oracle "
-           "skips it there and checks every other clause")
+           "k_1 < 1 (no physical Woehler line); for 1/2 <= k_1 <= 1 the Haibach slope 2 k_1 - 1 is flatter than k_1 and "
+           "damage_order_reversed_below_k1_one proves the non-strict order the other way round, elementary <= Haibach class by class "
+           "(no strict counterexample is stated; k_1 < 1/2 is not treated) - the clause is not claimed for curves with k_1 < 1, the "
+           "oracle skips it there and checks every other clause")
     PARTIAL = {"PylifeVerif.C11.damage_order_termwise": _K1,
                "PylifeVerif.C11.damage_order_original_le_haibach_le_elementary": _K1,
                "PylifeVerif.C11.damage_order_native": _K1}
@@ -607,23 +608,26 @@ class C11(Prop):
             "IntervalIndex class limits or as LoadCollective data frame, cycle counts with empty classes, load scale applied through the collective's own scale(), "
             "class location, split point, count factor, permutation; index / dtype layout: extra element_id level before or after the class levels, two objects "
             "joined with pd.concat (duplicated classes), int64 counts, non-default non-unique frame index; a collective that goes through the held accessor objects "
-            "first; optional call sequence; optional second curve = data frame of curves); all numbers dyadic so that class amplitudes are "
-            "exact; SD placed below / at / between / above the class amplitudes and inside an empty top class; "
+            "first; optional call sequence; optional second curve = data frame of curves); class limits, counts and the load scale are dyadic so that class amplitudes are "
+            "exact (k_1, the 'other' k_2 values, TS = 1.1, ND = 123456 and the failure probabilities are not dyadic); SD placed below / at / between / above the class amplitudes and inside an empty top class; "
             "correspondence: per-class damage, damage sums of the three Miner variants, solidity (Haibach, FKM; registered accessor at every class location), both lifetime "
             "multiples, both Gassner cycle numbers, damage after applying them, Gassner-shifted curve, effective "
             "damage sums, finite life factor - all from ONE elementary / Haibach / fatigue object that has evaluated another collective before; call sequences "
             "(lifetime_multiple, gassner_cycles, effective_damage_sum, gassner().ND, finite_life_factor, damage of the four variants, each on the collective, "
             "its parts, its permutation, its count multiple, twice its load) on one object of each class against Miner.run of the model incl. the state the object holds afterwards "
-            "- relative tolerance 1e-11 (np.power vs libm pow); oracle additionally: scale() leaves its operand alone, held object = fresh object for every call of a "
+            "- relative tolerance 1e-11 (np.power vs libm pow), 1e-10 on curves shifted to 50 % (series ppf of the driver), absolute 1e-300; oracle tolerances: "
+            "damage one after applying the Gassner cycles 1e-9 absolute (GASSNER_TOL), damage sums of parts / permutation 1e-12 relative, proportionality to the "
+            "counts 1e-13 relative, variant order with 1e-12 relative head room, cycles of the Gassner-shifted curve 1e-10 relative, frame of curves 1e-12 relative; "
+            "oracle additionally: scale() leaves its operand alone, held object = fresh object for every call of a "
             "sequence in both orders (bit-identical), curve Series / object state / collectives unmodified, data frame of curves pairs every row with its curve; "
             "degenerate collectives: the code's Gassner cycles are observed to be non-finite; non-trivial = not "
             "degenerate, at least two occupied classes and (an empty class or classes on both sides of SD or a call sequence)")
     ASSUMPTIONS = [
         "C11: the collective is observed through its accessors `amplitude` and `cycles` (LoadHistogram, LoadCollective); the model works on the list of (amplitude, cycles) pairs in row order - an extra element_id level, duplicated class labels, the dtype of the counts and the frame index do not enter (the Miner code pools all rows of the object; checked for these layouts); the harness derives the amplitudes from the class limits independently and the oracle compares them with the accessor after the code's own scale()",
         "C11: curves with native failure_probability in {0.025, 0.1, 0.3, 0.5, 0.9, 0.975} and scatter TN/TS (both, one, none given): damage, cycles and gassner_cycles evaluate the curve shifted to 50 % - the model imports Model/Woehler.lean `transform` (C08) for it, scipy.stats.norm.ppf is a parameter `ppf` in the theorems and a series implementation in the driver (tolerance 1e-10 on shifted curves); the Miner accessors take one curve (Series); a data frame of curves is observed through df.fatigue.damage by the oracle only (every row with its own curve; collectives with unique labels - pandas cannot join on a non-unique index) and is not in the model",
-        "C11: theorems over the reals with x/0 = 0 and 0^(-k) = 0; the guards ValidCurve (SD, ND > 0), ValidColl (amplitudes, counts >= 0) and Loaded (some occupied class with positive amplitude) are exactly the inputs on which the real code does not return NaN/inf (for collectives that are not Loaded the code's lifetime multiples / Gassner cycles are observed to be NaN or inf - pinned by the check, model answer `degenerate`); effective_damage_sum_bounds holds over the reals for every A, the code is defined for A > 0 only (effective_damage_sum_of_collective: that is what it gets); pandas/numpy summation order and np.power rounding are not modelled (tolerance)",
+        "C11: theorems over the reals with x/0 = 0 and 0^(-k) = 0; the guards ValidCurve (SD, ND > 0), ValidColl (amplitudes, counts >= 0) and Loaded (some occupied class with positive amplitude) are observed, on the generated cases, to be exactly the inputs on which the real code does not return NaN/inf (for collectives that are not Loaded the code's lifetime multiples / Gassner cycles are observed to be NaN or inf - pinned by the check, model answer `degenerate`); effective_damage_sum_bounds holds over the reals for every A, the code is defined for A > 0 only (effective_damage_sum_of_collective: that is what it gets); pandas/numpy summation order and np.power rounding are not modelled (tolerance)",
         "C11: object state: the accessor objects (gassner_miner_elementary, gassner_miner_haibach, fatigue) are modelled as a state machine whose state is the class and the validated curve (Model/Miner.lean Obj/Op/step/run); the model's step hands the state on unchanged, i.e. it SAYS the code keeps nothing between calls - that this is true of the code is not proved but checked: every case evaluates another collective on the held objects first, call sequences on one object are compared with Miner.run (answers and final state) and with fresh objects in both orders; state of the interpreter outside these objects (module globals, pandas caches) is not modelled",
-        "C11: the model is the REPAIRED Miner code (tools/fixes/C11-gassner-max-occupied.diff, tools/fixes/C11-haibach-knee-at-50pct.diff); on a tree without the repair the oracle reports the finding classes gassner-*-empty-top-class / gassner-*-below-SD / gassner-haibach-native-knee",
+        "C11: the model is the REPAIRED Miner code (/repo commits 110dd2d: Gassner cycles from the largest occupied amplitude, and 54050c5: Haibach knee at the 50 % endurance limit); on a tree without these repairs the oracle reports the finding classes gassner-*-empty-top-class / gassner-*-below-SD / gassner-haibach-native-knee.  Two further repairs lie outside the model and are seen by the oracle only: collective-scale-modifies-operand (fixed by 3af2b75, LoadCollective.scale / shift) and frame-of-curves-one-level-multiindex (fixed by 190635a, Broadcaster)",
     ]
 
     # tie T (DESIGN 1.1): lean/Generated/<name>.lean are regenerated from the current python source before the build;
@@ -663,7 +667,7 @@ class C11(Prop):
         self.exhaustive = True
         self.stats["exhaustive_scope"] = ("regular range histogram with 1..%d classes: every occupancy pattern x SD below all / at "
                                           "each class / between classes / above all x (k_1,k_2) in {(5,inf),(5,9),(3,3)} and the curves (5,inf,TN=4,pf=0.1), (4,7,TN=3,TS=1.25,pf=0.9); "
-                                          "object state: every ordered pair of calls from {lifetime_multiple, gassner_cycles, effective_damage_sum, gassner().ND} x "
+                                          "object state: every ordered pair of calls from {lifetime_multiple, gassner_cycles, effective_damage_sum, gassner().ND (Miner-elementary object only)} x "
                                           "{collective, its first half%s} on one Miner-elementary and one Miner-Haibach object, "
                                           "and from {damage, miner_haibach().damage} x the same collectives on one fatigue object" % (4 if tier == "quick" else 6, "" if tier == "quick" else ", collective at twice the load"))
         for c in exhaustive_cases(tier):
@@ -941,7 +945,8 @@ class C11(Prop):
             if again != (amps, counts):
                 d = (f"collective.scale(0.5) changed the collective it was called on: amplitudes/cycles {(amps, counts)} before, {again} after "
                      f"(kind {case['kind']}); every later damage / Gassner evaluation of that collective is at the wrong load level")
-                # the open finding is exactly: a LoadCollective FRAME takes over the scaled from/to values, cycles untouched
+                # the finding (fixed by 3af2b75; known() tolerates open classes only, a recurrence is reported) was exactly: a
+                # LoadCollective FRAME takes over the scaled from/to values, cycles untouched
                 narrow = case["kind"] in ("collective", "collective_rm") and again == ([0.5 * a for a in amps], counts)
                 k = "collective-scale-modifies-operand" if narrow else "collective-modified"
                 if not self.known(k, d):
@@ -1138,8 +1143,9 @@ class C11(Prop):
         except KeyError as e:
             idx = lc.cycles.index
             if isinstance(idx, pd.MultiIndex) and idx.nlevels == 1 and e.args == (None,):
-                # Broadcaster defect (C13, audit D13-2): a one-level MultiIndex - what LoadHistogram.scale() returns for a
-                # plain range histogram - against a frame of curves
+                # former Broadcaster defect (C13, audit D13-2, fixed by 190635a): a one-level MultiIndex - what
+                # LoadHistogram.scale() returns for a plain range histogram - against a frame of curves; the class is fixed, so
+                # known() tolerates nothing here and a recurrence is reported
                 d = (f"data frame of curves x range histogram scaled by {case.get('scale', 1.0)} (scale() returns a one-level MultiIndex): "
                      f"Broadcaster raises KeyError(None)")
                 k = "frame-of-curves-one-level-multiindex"
